@@ -3,7 +3,7 @@ import itertools, json, random
 import common as C
 import c13
 
-EXTRA_VO = ["Exec/RunC13.vo"]
+EXTRA_VO = ["Exec/RunC13.vo", "Exec/RunPres.vo"]
 TRUSTED_BASE = [
     "Coq 8.16.1 kernel; Print Assumptions of every C06 theorem: closed under the global context",
     "PARTIAL: theorems = completeness, invalid-handle rejection and special soundness of the VB20 zero-knowledge membership sub-protocol (coq/Model/AccProof.v of src/knox/accumulator/vb20/proof.rs:104-335, src/verifier/revocation.rs) composed with C13 (bookkeeping = accumulator, fresh / stale handles) and C14 (public updates); that no efficiently computable handle exists for a revoked identifier is the accumulator's q-SDH assumption, assumed",
@@ -127,10 +127,24 @@ def explore(ctx):
         if len(samples) < 3:
             samples.append({"ops": c["ops"], "suite": c["suite"], "steps": [{"r": s["r"], "pres": s["pres"]} for s in r["steps"]][:4]})
     failures.sort(key=lambda f: len(f["case"].get("ops", [])))
+    # ---- a deviating holder at the presentation layer: the accumulator sub-protocol of the revocation statement run on
+    # ANOTHER holder's identifier and valid handle (what a revoked holder with an accomplice would do); the verifier model
+    # (Model/Pres.v, theorem C06_accept_revocation_link) and Presentation::verify must both refuse
+    import pres_common as PC
+    import pres_check as K
+    devs = [{"dev": {"k": "rev_other_element_shared"}, "target": "r0"}, {"dev": {"k": "rev_other_element_independent"}, "target": "r0"},
+            {"dev": {"k": "omit_pred"}, "target": "r0"}]
+    shapes = [dict(n_creds=2, rev=True, one_issuer=True, n_claims=4), dict(n_creds=3, rev=True, one_issuer=True, n_claims=3)]
+    scns = K.scenarios_for("C06", devs, random.Random(seed + 6), "quick" if tier == "quick" else "thorough", shapes)
+    pres = PC.run("C06", scns, tag="pres")
+    pf, phist, _ = PC.judge("C06", pres, {"C05", "C06"})
+    failures += pf
+    hist["external_prover"] = phist.get("by_dev", {})
+    n_pres += len(pres)
     return {
         "evaluations": n_pres,
         "distinct_nontrivial": len(distinct),
-        "rule": "cases = issuer histories over 2..4 holders (issue and blind issue, re-issue through either entry point, single and batch revocation incl. failing batches, refresh); after every operation every holder with a credential presents with a revocation statement against the current registry value using its latest handle, its oldest handle, the handle it maintained by single-step public updates, its first handle brought up to date by one multi-batch update over the published batch coefficients, another holder's handle and the registry value itself; the verdict of Presentation::create + verify is compared with the verdict derived from the Coq registry model's trace; distinct by (suite, history prefix, holder, handle kind)",
+        "rule": "cases = issuer histories over 2..4 holders (issue and blind issue, re-issue through either entry point, single and batch revocation incl. failing batches, refresh); after every operation every holder with a credential presents with a revocation statement against the current registry value using its latest handle, its oldest handle, the handle it maintained by single-step public updates, its first handle brought up to date by one multi-batch update over the published batch coefficients, another holder's handle and the registry value itself; plus an external holder that runs the revocation statement's accumulator sub-protocol on another holder's identifier and handle (compared with the Coq verifier model); the verdict of Presentation::create + verify is compared with the verdict derived from the Coq registry model's trace; distinct by (suite, history prefix, holder, handle kind)",
         "samples": samples,
         "histograms": hist,
         "failures": failures,
